@@ -604,6 +604,25 @@ Section Content.
     - apply decode_plain. apply label_del.
   Qed.
 
+  Lemma write_out_inv : forall st h0 content r, framed r -> inv st h0 content r ->
+    w_status (write_out r) = st /\ same_e2e (w_headers (write_out r)) h0 /\
+    decode f (w_headers (write_out r)) (w_body (write_out r)) = Some content.
+  Proof.
+    intros st h0 content r Hf [J1 J2 J3 J4].
+    destruct (write_out_framed _ Hf) as [_ [Hb _]].
+    assert (Hs : w_status (write_out r) = rs_status r).
+    { unfold write_out. destruct (rs_cl _); [destruct (_ <=? _)|]; reflexivity. }
+    assert (Hh : w_headers (write_out r) = rs_headers r).
+    { unfold write_out. destruct (rs_cl _); [destruct (_ <=? _)|]; reflexivity. }
+    rewrite Hs, Hh, Hb. repeat split; assumption.
+  Qed.
+
+  (** the content the client is owed: the backend's, or - unless the backend's status is one
+      of the pool's failureCodes, which ends the pipeline at the Proxy - what the
+      ResponseAdaptor makes of it *)
+  Definition owed (c : pcfg) (status : Z) (content : string) : string :=
+    if failure_code c status then content else adapted (p_rs c) content.
+
   (** status, end-to-end headers and content survive the gateway, whatever compression,
       transparent decompression, adaptors and stream mode do; the only other outcome is
       the gateway's own 500 (size limit, undecodable body) *)
@@ -614,25 +633,23 @@ Section Content.
     respond q f c hs added b = Some w ->
     w = failure 500 \/
     (w_status w = br_status b /\ same_e2e (w_headers w) (br_headers b) /\
-     decode f (w_headers w) (w_body w) = Some (adapted (p_rs c) content)).
+     decode f (w_headers w) (w_body w) = Some (owed c (br_status b) content)).
   Proof.
     intros q c hs added b w content Hq1 Hq2 Hwf Hl Hc H. unfold respond in H.
     destruct (transport_response f added b) as [r0|] eqn:E0; [|inversion H; left; reflexivity].
     destruct (build_response q f c hs r0) as [r| |] eqn:E1; [|inversion H; left; reflexivity|discriminate].
-    right. inversion H. clear H. subst w.
+    right.
     pose proof (transport_inv _ _ _ _ Hl Hc E0) as I0.
     pose proof (transport_decl _ _ _ Hwf E0) as D0.
     pose proof (build_inv _ _ _ _ _ _ _ _ Hq1 I0 D0 E1) as I1.
-    pose proof (adaptor_inv q (p_rs c) _ _ _ _ I1) as I2.
-    assert (Hf : framed (response_adaptor q f (p_rs c) r)).
-    { apply adaptor_framed; [exact Hq2|]. eapply build_framed; [|exact E1]. eapply transport_pre; eauto. }
-    destruct (write_out_framed _ Hf) as [_ [Hb _]].
-    destruct I2 as [J1 J2 J3 J4].
-    assert (Hs : w_status (write_out (response_adaptor q f (p_rs c) r)) = rs_status (response_adaptor q f (p_rs c) r)).
-    { unfold write_out. destruct (rs_cl _); [destruct (_ <=? _)|]; reflexivity. }
-    assert (Hh : w_headers (write_out (response_adaptor q f (p_rs c) r)) = rs_headers (response_adaptor q f (p_rs c) r)).
-    { unfold write_out. destruct (rs_cl _); [destruct (_ <=? _)|]; reflexivity. }
-    rewrite Hs, Hh, Hb. repeat split; assumption.
+    assert (Hr : framed r) by (eapply build_framed; [|exact E1]; eapply transport_pre; eauto).
+    assert (Es : rs_status r = br_status b) by (destruct I1; assumption).
+    unfold owed. rewrite <- Es.
+    destruct (failure_code c (rs_status r)); inversion H; subst w.
+    - rewrite Es. apply write_out_inv; assumption.
+    - rewrite Es. apply write_out_inv.
+      + apply adaptor_framed; assumption.
+      + apply adaptor_inv. exact I1.
   Qed.
 End Content.
 
@@ -919,7 +936,8 @@ Section History.
     (w_frame_ok w = true /\ (w_cl w = None \/ w_cl w = Some (slen (w_body w))) /\
      exists b content, In b seen /\ decode f (br_headers b) (br_body b) = Some content /\
        w_status w = br_status b /\ same_e2e (w_headers w) (br_headers b) /\
-       decode f (w_headers w) (w_body w) = Some (adapted (p_rs c) content)).
+       (decode f (w_headers w) (w_body w) = Some content \/
+        decode f (w_headers w) (w_body w) = Some (adapted (p_rs c) content))).
   Definition out_ok (c : pcfg) (seen : list bresp) (o : outcome) : Prop :=
     match o with Answered w _ => answer_ok c seen w | NoResponse _ => False end.
 
@@ -942,7 +960,18 @@ Section History.
     assert (Hh : w_headers (write_out r') = rs_headers r').
     { unfold write_out. destruct (rs_cl r'); [destruct (_ <=? _)|]; reflexivity. }
     destruct I1 as [J1 J2 J3 J4].
-    split; [exact W1|]. split; [exact W3|]. exists b, ct. rewrite Hs, Hh, W2. repeat split; assumption.
+    split; [exact W1|]. split; [exact W3|]. exists b, ct. rewrite Hs, Hh, W2.
+    split; [assumption|]. split; [assumption|]. split; [assumption|]. split; [assumption|]. right. assumption.
+  Qed.
+
+  (** a failure-coded answer leaves the gateway as the Proxy built it *)
+  Lemma plain_ok : forall c seen r, resp_ok seen r -> answer_ok c seen (write_out r).
+  Proof.
+    intros c seen r [F [b [ct [I [D Hinv]]]]]. right.
+    destruct (write_out_framed _ F) as [W1 [_ W3]].
+    destruct (write_out_inv f _ _ _ _ F Hinv) as [A [Bh Cd]].
+    split; [exact W1|]. split; [exact W3|]. exists b, ct.
+    split; [assumption|]. split; [assumption|]. split; [assumption|]. split; [assumption|]. left. assumption.
   Qed.
 
   Lemma build_not_panicked : forall q c hs r0, q_stream_compress_panics q = false ->
@@ -980,7 +1009,9 @@ Section History.
             eapply build_inv; [exact gz|exact Q1| | |exact E1].
             + eapply transport_inv; eauto.
             + eapply transport_decl; eauto. }
-        inversion H. subst o st'. split; [apply finish_ok; assumption|].
+        destruct (failure_code c (rs_status r1)); inversion H; subst o st'.
+        { split; [apply plain_ok; exact R1|exact Hmono]. }
+        split; [apply finish_ok; assumption|].
         destruct (storable s (cq_method r) h r1); [|exact Hmono].
         intros k e [Hin|Hin]; [|apply (Hmono k e Hin)].
         inversion Hin. subst k e. destruct R1 as [F [b' [ct' [I [D Hinv]]]]]. split.
@@ -1083,7 +1114,7 @@ Lemma response_content_total : forall f q c hs added b content,
   exists w, respond q f c hs added b = Some w /\
     (w = failure 500 \/
      (w_status w = br_status b /\ same_e2e (w_headers w) (br_headers b) /\
-      decode f (w_headers w) (w_body w) = Some (adapted (p_rs c) content))).
+      decode f (w_headers w) (w_body w) = Some (owed c (br_status b) content))).
 Proof.
   exact (fun f q c hs added b content gz H1 H2 H4 Hwf Hl Hc =>
            match respond q f c hs added b as o
